@@ -474,7 +474,7 @@ func runC07(c *Ctx) {
 
 	// "a failing frame leaves world state exactly as it was" is implemented by the state journal: its discipline
 	// (journal-before-mutate, complete undo, revert shape, dirty-tracking protocol) is decided by C09's rules, shared here
-	c.Borrow("C09", runC09, map[string]string{"C09-R1": "C07-R12", "C09-R1b": "C07-R12", "C09-R2": "C07-R12", "C09-R5": "C07-R12"})
+	c.Borrow("C09", runC09, map[string]string{"C09-R1": "C07-R12", "C09-R1b": "C07-R12", "C09-R2": "C07-R12", "C09-R5": "C07-R12", "C09-R7": "C07-R12"})
 	// "terminates without crashing the node": the jump-destination bitmap is cached per code hash and indexed by the
 	// jump target, so a code/hash pair that does not match makes a later frame index another code's bitmap (out of
 	// range panic, or a jump into push data). The pairing and cache-key rules are C08's, shared here.
